@@ -25,7 +25,9 @@ structure DBInv (db : DB) : Prop where
   pos     : ∀ p ∈ db.vers, 0 < p.1
   hist    : HistInv db
   fast    : FastInv db
-  nostamp : db.stamp = none → db.fast = []
+  /-- nothing committed yet ⇒ no entries. (Entries WITHOUT a stamp can exist: the documented
+  remediation "delete the stamp", or an Import aborted after `dropFastIndex`'s first commit.) -/
+  emptyFast : db.vers = [] → db.fast = []
   /-- no stamp ahead of the latest version at rest. -/
   stampLe : ∀ S, db.stamp = some S → ∃ p ∈ db.vers, S ≤ p.1
   /-- retained versions form an interval. -/
